@@ -343,7 +343,8 @@ def gen_inputs(r):
             'x': r.choice(['x<y', 'plain', 'Zed&', 'café']),
             'b': r.choice(['', '62', 'c3a9', 'e9']),
             'n2': r.choice([0, 2, 7]), 'c': r.choice([0, 1, 'c', '']),
-            'via': r.choice(['kw', 'mapping', 'client', 'clients']),
+            'via': r.choice(['kw', 'mapping', 'client', 'clients',
+                             'dictclient']),
             'zz': r.choice([None, None, 'Z', 'zz2']),
             'cmpf': r.choice(sorted(CMPF)),
             'sk2': r.choice(['a/cmpf', 'a/cmpf/desc', 'n,a/cmpf', 'a']),
@@ -398,6 +399,12 @@ def build_inputs(spec, plan, template):
         return None, {}, data, hook, watch
     if via == 'mapping':
         return None, data, {}, hook, watch
+    if via == 'dictclient':
+        # a plain dict where an object is expected: legal, and it
+        # contributes nothing (its keys are not attributes)
+        cd = {'vv': 'from-client-dict', 'dflt': 'cd'}
+        watch.append(cd)
+        return cd, data, {}, hook, watch
     client = Rec('client', **data)
     watch.append(client.__dict__)
     if via == 'clients':
